@@ -1,5 +1,5 @@
 (* one case per line: id \t cfg \t resolved-type \t initial-value \t input-hex
-   out: id, then (status O|E|U, value-or-dash) for sonic_bind Jit, std_bind, sonic_bind Opt, sonic_bind OptFast *)
+   out: id, then (status O|E|U, value-or-dash) for sonic_bind Jit, std_bind, sonic_bind Opt, sonic_bind OptFast, exec (compile ty) *)
 let show_res t r =
   match r with
   | Val.Ok v -> ("O", Sx.show t v)
@@ -22,7 +22,8 @@ let () =
         let (js, jv) = show_res t (StdBind.std_unmarshal o t input v0) in
         let (os, ov) = show_res t (SonicBind.sonic_unmarshal Sx.weak_hash SonicBind.Opt o t input v0) in
         let (fs, fv) = show_res t (SonicBind.sonic_unmarshal Sx.weak_hash SonicBind.OptFast o t input v0) in
-        Stdlib.Printf.printf "%s\t%s\t%s\t%s\t%s\t%s\t%s\t%s\t%s\n" id ss sv js jv os ov fs fv
+        let (is, iv) = show_res t (Exec.il_unmarshal Sx.weak_hash o t input v0) in
+        Stdlib.Printf.printf "%s\t%s\t%s\t%s\t%s\t%s\t%s\t%s\t%s\t%s\t%s\n" id ss sv js jv os ov fs fv is iv
       with Failure m -> Stdlib.Printf.printf "%s\tX\t%s\tX\t-\n" id m)
     | ["IL"; tys] ->
       (try
